@@ -110,6 +110,27 @@ func runC21(c *eng.Ctx) {
 			}
 			c.Guard("PROV-hardlink-release", "only-when-identity-differs", fn, eng.Entry(fn), dh, eng.PassEdges(fn, differs), "the displaced identity is released only when it differs from the new one")
 		}
+		// ... and only when the existing entry has an identity at all
+		if len(dh) == 1 {
+			hasId := eng.PassEdges(fn, func(cond ssa.Value) (bool, bool) {
+				b, ok := cond.(*ssa.BinOp)
+				if !ok || !isZero(b.Y) {
+					return false, false
+				}
+				call, isCall := b.X.(*ssa.Call)
+				if !isCall || !eng.CalleeIs(call, "builtin.len") || !eng.MentionsField(call.Call.Args[0], "Entry.HardLinkId") || !eng.MentionsCall(call.Call.Args[0], "filer.FilerStore).FindEntry") {
+					return false, false
+				}
+				switch b.Op {
+				case token.NEQ, token.GTR:
+					return true, true
+				case token.EQL:
+					return true, false
+				}
+				return false, false
+			})
+			c.Guard("PROV-hardlink-release", "only-when-existing-has-identity", fn, eng.Entry(fn), dh, hasId, "an identity is released only when the entry read from the store carries one")
+		}
 		// a plain (non-link) entry written over a hard-linked name displaces that identity too: on the edge where
 		// the new entry has no link id the release is still reachable
 		if len(dh) == 1 {
